@@ -681,6 +681,11 @@ def printer_programs():
                                Print(Match(S("a\"b"), [([S("a\"b")], S("hit\n1")), ([S("x"), S("y\\")], S("other"))], S("dflt")))))
     add("string_keys", main(Let("o", ObjK([("plain", I(1)), ("with space", I(2)), ("kebab-case", I(3)), ("9start", I(4)), ("quote\"d", I(5))])), Print(V("o")),
                             Let("j", MCall(V("o"), "to_json")), Print(V("j"))))
+    # keys which read like an identifier only after something was skipped or cut: blanks and comments around it, other
+    # separators inside, keywords, nothing at all - and the bare identifier next to them in the same object
+    odd = ["k ", " k", "k\t", "k\n", "y//z", "k/* */", "/**/k", "a.b", "a:b", "a,b", "", "fn", "let", "true", "none", "_", "__x", "k1", "1k", "\u00e4", "a\u00e4", "k;", "(k)", "$k", "@k", "k?"]
+    add("string_keys_odd", main(Let("o", ObjK([(x, I(i)) for i, x in enumerate(odd)] + [("k", I(100)), ("y", I(101)), ("a", I(102))])), Print(V("o")),
+                                Let("j", MCall(V("o"), "to_json")), Print(V("j")), Print(MCall(V("o"), "keys"))))
     # nested blocks as values, if / else chains, match with several literals and a default, try as a value
     add("nested_values", main(
         Let("v", Block([Let("a", I(1))], Block([Let("b", Bin("+", V("a"), I(1)))], Block([], Bin("*", V("b"), I(3)))))), Print(V("v")),
